@@ -1,6 +1,15 @@
 package main
 
-import "fmt"
+import (
+	"encoding/json"
+	"fmt"
+	"os"
+	"os/exec"
+	"path/filepath"
+	"regexp"
+	"strings"
+	"time"
+)
 
 type replayOutcome struct {
 	Driver     string `json:"driver"`
@@ -10,16 +19,181 @@ type replayOutcome struct {
 	Note       string `json:"note,omitempty"`
 }
 
-func (r *Report) tryReplay(o checkOpts, ob *Obligation, rf *replayFile) *replayOutcome {
-	return &replayOutcome{Note: "no replay driver for this function"}
+// A replay driver is a Go test kept under /verif/replay (or a seeded change's demonstration) that exercises the real
+// code with a concrete failing input, schedule or history for one named obligation. It is injected into the package
+// with `go test -overlay`, so nothing is written to the repository. A violation counts as replayed only when the
+// test fails on the code under check.
+type replayDriver struct {
+	Obligation string   `json:"obligation"` // regular expression on the obligation name
+	Dir        string   `json:"dir"`        // package directory relative to the repository root
+	Files      []string `json:"files"`      // files relative to /verif; *_test.go are injected as tests
+	Run        string   `json:"run"`        // -run regular expression
+	Race       bool     `json:"race"`
+	Input      string   `json:"input"` // what the test feeds the code
 }
 
+func loadDrivers() []replayDriver {
+	b, err := os.ReadFile(filepath.Join(verifDir, "replay", "drivers.json"))
+	if err != nil {
+		return nil
+	}
+	var ds []replayDriver
+	if json.Unmarshal(b, &ds) != nil {
+		return nil
+	}
+	return ds
+}
+
+func runDriver(repo string, d replayDriver) (bool, string, error) {
+	tmp, err := os.MkdirTemp("", "gvc-replay-")
+	if err != nil {
+		return false, "", err
+	}
+	defer os.RemoveAll(tmp)
+	ov := map[string]map[string]string{"Replace": {}}
+	for i, f := range d.Files {
+		src := filepath.Join(verifDir, f)
+		if !fileExists(src) {
+			return false, "", fmt.Errorf("driver file %s missing", src)
+		}
+		name := fmt.Sprintf("zz_gvc_replay_%d.go", i)
+		if strings.HasSuffix(f, "_test.go") {
+			name = fmt.Sprintf("zz_gvc_replay_%d_test.go", i)
+		}
+		ov["Replace"][filepath.Join(repo, d.Dir, name)] = src
+	}
+	ob, _ := json.Marshal(ov)
+	ovf := filepath.Join(tmp, "overlay.json")
+	os.WriteFile(ovf, ob, 0o644)
+	args := []string{"test", "-overlay", ovf, "-vet=off", "-count=1", "-timeout", "90s", "-run", d.Run}
+	if d.Race {
+		args = append(args, "-race")
+	}
+	args = append(args, "./"+d.Dir+"/")
+	cmd := exec.Command("go", args...)
+	cmd.Dir = repo
+	cmd.Env = append(os.Environ(), "GOFLAGS=-mod=mod", "GOPROXY=off", "GOSUMDB=off", "GOTOOLCHAIN=local")
+	done := make(chan struct{})
+	var out []byte
+	var rerr error
+	go func() { out, rerr = cmd.CombinedOutput(); close(done) }()
+	select {
+	case <-done:
+	case <-time.After(240 * time.Second):
+		if cmd.Process != nil {
+			cmd.Process.Kill()
+		}
+		<-done
+		return false, truncate(string(out), 4000), fmt.Errorf("replay timed out")
+	}
+	s := string(out)
+	if rerr == nil {
+		return false, truncate(s, 4000), nil
+	}
+	if strings.Contains(s, "[build failed]") || strings.Contains(s, "[setup failed]") {
+		return false, truncate(s, 4000), fmt.Errorf("replay test does not build against this tree")
+	}
+	// the test ran and failed (assertion, panic, race report or deadlock): the concrete input fails on the real code
+	return strings.Contains(s, "FAIL"), truncate(s, 4000), nil
+}
+
+func (r *Report) tryReplay(o checkOpts, ob *Obligation, rf *replayFile) *replayOutcome {
+	if o.noWrite {
+		return &replayOutcome{Note: "replay skipped (--no-evidence)"}
+	}
+	for _, d := range loadDrivers() {
+		re, err := regexp.Compile(d.Obligation)
+		if err != nil || !re.MatchString(ob.Name) {
+			continue
+		}
+		rep, out, err := runDriver(o.repo, d)
+		oc := &replayOutcome{Driver: strings.Join(d.Files, ",") + " -run " + d.Run, Reproduced: rep, Input: d.Input, Output: out}
+		if err != nil {
+			oc.Note = err.Error()
+		} else if !rep {
+			oc.Note = "the driver's input does not fail on this tree"
+		}
+		if rep {
+			return oc
+		}
+		rf.Replay = oc
+	}
+	if rf.Replay != nil {
+		return rf.Replay
+	}
+	return &replayOutcome{Note: "no replay driver for this obligation; the verifier's output is attached"}
+}
+
+// cmdReplay re-runs what a replay file records: the Go driver against /repo when there is one, otherwise the
+// recorded solver query. Exit 1: the failure is still there; exit 0: it is not.
 func cmdReplay(args []string) int {
-	fmt.Println("replay: not yet implemented")
-	return 2
+	if len(args) < 1 {
+		usage()
+	}
+	repo := "/repo"
+	if len(args) > 2 && args[1] == "--repo" {
+		repo = args[2]
+	}
+	b, err := os.ReadFile(args[0])
+	if err != nil {
+		fmt.Println("TOOL-ERROR:", err)
+		return 2
+	}
+	var rf replayFile
+	if err := json.Unmarshal(b, &rf); err != nil {
+		fmt.Println("TOOL-ERROR:", err)
+		return 2
+	}
+	fmt.Printf("replay of %s (property %s) at %s\n  goal: %s\n  recorded verdict: %s (%s)\n", rf.Obligation, rf.Property, rf.Position, rf.Goal, rf.Verdict, rf.SolverNotes)
+	for _, d := range loadDrivers() {
+		re, err := regexp.Compile(d.Obligation)
+		if err != nil || !re.MatchString(rf.Obligation) {
+			continue
+		}
+		rep, out, err := runDriver(repo, d)
+		fmt.Printf("driver %v -run %s: reproduced=%v\n%s\n", d.Files, d.Run, rep, out)
+		if err != nil {
+			fmt.Println("  note:", err)
+		}
+		if rep {
+			fmt.Printf("VIOLATION property=%s replay=%s\n", rf.Property, args[0])
+			return 1
+		}
+	}
+	if rf.SMT != "" {
+		tmp, _ := os.MkdirTemp("", "gvc-replay-")
+		defer os.RemoveAll(tmp)
+		f := filepath.Join(tmp, "q.smt2")
+		os.WriteFile(f, []byte(rf.SMT), 0o644)
+		for _, s := range []string{"z3-new", "z3", "cvc5"} {
+			a := []string{"-T:60", f}
+			if s == "cvc5" {
+				a = []string{"--tlimit=60000", f}
+			}
+			out, _ := exec.Command(s, a...).CombinedOutput()
+			first := strings.SplitN(strings.TrimSpace(string(out)), "\n", 2)[0]
+			fmt.Printf("  %s: %s\n", s, first)
+			if first == "unsat" {
+				fmt.Println("the recorded query is discharged now")
+				return 0
+			}
+			if first == "sat" {
+				fmt.Printf("VIOLATION property=%s replay=%s no-failing-input-found\n", rf.Property, args[0])
+				return 1
+			}
+		}
+		fmt.Printf("VIOLATION property=%s replay=%s no-failing-input-found\n", rf.Property, args[0])
+		return 1
+	}
+	fmt.Println("nothing to re-run: no driver and no recorded query")
+	return 1
 }
 
 func cmdSelftest(args []string) int {
-	fmt.Println("selftest: not yet implemented")
-	return 2
+	cmd := exec.Command(filepath.Join(verifDir, "tools", "selftest.sh"), args...)
+	cmd.Stdout, cmd.Stderr = os.Stdout, os.Stderr
+	if err := cmd.Run(); err != nil {
+		return 1
+	}
+	return 0
 }
